@@ -1,7 +1,7 @@
 SPECIFICATION Spec
 CONSTANTS
   NVarsSet <- MC_N3
-  Grid <- MC_GridFull3
+  Grid <- MC_GridThree
   MaxExcluded = 1
   AllowMalformed = FALSE
   AsFound_SignedRelativeTest = FALSE
